@@ -60,6 +60,20 @@ def load_index():
     return specs
 
 
+_KNOWN = None
+
+
+def _known_keys():
+    global _KNOWN
+    if _KNOWN is None:
+        import json as _json
+        try:
+            _KNOWN = {k["key"] for k in _json.load(open(os.path.join(VERIF, "known_findings.json")))["findings"] if k.get("status") == "known"}
+        except Exception:
+            _KNOWN = set()
+    return _KNOWN
+
+
 def run(pid, chk, max_mutants=None):
     specs = [s for s in load_index() if pid in s.get("expect", {}) or pid in s.get("silent", [])]
     if max_mutants:
@@ -82,7 +96,8 @@ def run(pid, chk, max_mutants=None):
                 mod.run(Fm, sub)
             except Exception as e:  # a mutant may break an anchor: that is a detection of sorts, recorded separately
                 sub.broken.append("exception: %r" % (e,))
-            keys = sorted(set(v["key"] for v in sub.viol))
+            # findings that are listed as known on the unchanged tree are not alarms of the variant
+            keys = sorted(set(v["key"] for v in sub.viol if v["key"] not in _known_keys()))
             res["applied"] += 1
             if pid in s.get("silent", []):
                 (res["silent_ok"] if not keys and not sub.broken else res["silent_alarm"]).append({"mutant": s["name"], "keys": keys[:4]})
